@@ -27,11 +27,33 @@ type Check struct {
 	NeedInst []string // instrumented files this check cannot run without
 }
 
+// OverlayAdd lists files that exist only in the worker build (overlay entries
+// for paths that are not in /repo): exported constructors for values that an
+// oracle-side driver must be able to build but whose fields are unexported.
+// They add no behaviour and nothing in kubegateway refers to them.
+var OverlayAdd = map[string]string{
+	"pkg/flowcontrols/remote/zz_kgsim_export.go": `package remote
+
+import proxyv1alpha1 "github.com/kubewharf/kubegateway/pkg/apis/proxy/v1alpha1"
+
+// KgsimAcquireResult builds the value the global counter hands to SetLimit
+// after an acquire RPC (kgsim worker build only).
+func KgsimAcquireResult(errText string, accept bool, limit int32, requestTime int64) *AcquireResult {
+	return &AcquireResult{
+		request:     &proxyv1alpha1.RateLimitAcquireRequest{},
+		result:      &proxyv1alpha1.RateLimitAcquireResult{Accept: accept, Limit: limit, Error: errText},
+		requestTime: requestTime,
+	}
+}
+`,
+}
+
 // InstrTargets lists the files of /repo that get yield points (DESIGN §2.5).
 var InstrTargets = []instr.Target{
 	{File: "pkg/ratelimiter/store/flowcontrol/maxinflight.go", All: true, Funcs: []string{"globalMaxInflight.SetState", "globalMaxInflight.add", "globalMaxInflight.Resize"}},
 	{File: "pkg/flowcontrols/flowcontrol/flowcontrol.go", All: true, Funcs: []string{"flowControl.Resize"}},
 	{File: "pkg/flowcontrols/remote/flowcontrol_wrapper.go", All: true, Funcs: []string{"localWrapper.Sync", "meterWrapper.TryAcquire", "meterWrapper.Release"}},
+	{File: "pkg/flowcontrols/remote/global_flowcontrol.go", Funcs: []string{"maxInflightWrapper.SetLimit", "maxInflightWrapper.Resize", "maxInflightWrapper.resize", "maxInflightWrapper.TryAcquire", "maxInflightWrapper.Release"}},
 	{File: "pkg/flowcontrols/limiter.go", All: true, Funcs: []string{"upstreamLimiter.Load", "upstreamLimiter.syncLocalFlowControls"}},
 	{File: "pkg/clusters/clusterinfo.go", Funcs: []string{"endpointPickStrategy.Pop", "ClusterInfo.MatchAttributes", "ClusterInfo.Sync"}},
 	{File: "pkg/ratelimiter/limiter/ratelimter.go", Funcs: []string{"rateLimiter.UpdateRateLimitConditionStatus", "rateLimiter.UpstreamConditionHandler", "rateLimiter.calculateUpstreamCondition", "rateLimiter.deleteCondition"}},
@@ -132,8 +154,9 @@ func init() {
 			{World: "tb", Profile: "c06-steady", Quick: 600, Thor: 40000, PerProc: 50, FaultFree: true},
 			{World: "tb", Profile: "c06-reconf", Quick: 400, Thor: 20000, PerProc: 50},
 			{World: "gw", Profile: "c06h-http", Quick: 100, Thor: 5000, PerProc: 1, FaultFree: true},
+			{World: "tb", Profile: "c06i-sameinstant", Quick: 1500, Thor: 60000, PerProc: 1},
 		},
-		Rule: "each run = drawn (qps, burst>=qps) and a drawn arrival process of 20-400 calls on the fake clock (same-instant bursts, exact k/qps gaps +-1ns, micro/milli/second pauses up to 2 minutes; reconf profile: resizes ending a stretch); every pair of admissions of a stretch is checked against burst+qps*T, every idle period against min(burst, floor(qps*t)); distinct = distinct trace hash; non-trivial = some calls admitted and some refused. Profile c06h-http (gw world): the same bounds observed through HTTP, refused <=> 429 Status and never forwarded",
+		Rule: "each run = drawn (qps, burst>=qps) and a drawn arrival process of 20-400 calls on the fake clock (same-instant bursts, exact k/qps gaps +-1ns, micro/milli/second pauses up to 2 minutes; reconf profile: resizes ending a stretch); every pair of admissions of a stretch is checked against burst+qps*T, every idle period against min(burst, floor(qps*t)); distinct = distinct trace hash; non-trivial = some calls admitted and some refused. Profile c06h-http (gw world): the same bounds observed through HTTP, refused <=> 429 Status and never forwarded. Profile c06i-sameinstant (bubble + cooperative scheduler): 2-6 request threads hit a freshly created token-bucket schema 1-3 times each at one fake instant, optionally with a concurrent reconfiguration, interleaved at statement granularity through GetOrDefault / TryAcquire / Sync; at most the sum of the bursts of the buckets that existed may be admitted",
 		Real: []string{"pkg/flowcontrols UpstreamLimiter + remote.FlowControlCache/localWrapper/meterWrapper + flowcontrol.resizeableTokenBucket + client-go token bucket (golang.org/x/time/rate) reading the bubble clock"},
 		Stub: []string{"arrival process (driver), fake clock (testing/synctest)"},
 		Assume: []string{
@@ -149,8 +172,9 @@ func init() {
 		Batches: []Batch{
 			{World: "store", Profile: "c19-nofault", Quick: 150, Thor: 6000, PerProc: 1, FaultFree: true},
 			{World: "store", Profile: "c19-faults", Quick: 350, Thor: 20000, PerProc: 1},
+			{World: "rl", Profile: "c19h-handover", Quick: 120, Thor: 6000, PerProc: 1},
 		},
-		Rule: "each run = drawn shard layout, store mode (write-through / periodic with drawn period), 1-3 caller threads with drawn Save/Delete/DeleteUpstream/Flush programs over conditions of both shards, injected API outcomes at the pre/post sim point of every API call, and either a crash at a drawn step or a graceful Stop; afterwards successors of both shards Load() fault-free; distinct = distinct trace hash; non-trivial = some operation acknowledged AND (an operation failed, was in flight at the crash, or a graceful stop completed)",
+		Rule: "each run = drawn shard layout, store mode (write-through / periodic with drawn period), 1-3 caller threads with drawn Save/Delete/DeleteUpstream/Flush programs over conditions of both shards, injected API outcomes at the pre/post sim point of every API call, and either a crash at a drawn step or a graceful Stop; afterwards successors of both shards Load() fault-free; distinct = distinct trace hash; non-trivial = some operation acknowledged AND (an operation failed, was in flight at the crash, or a graceful stop completed). Profile c19h-handover (rl world): two real limiter replicas with lease election over 1-3 shards and the API-backed store (write-through or 1 s periodic), 2-5 upstreams, 1-3 gateway client sets whose reports go to the leaders they discover; 15-60 steps of reports, clock advances, crash of a replica, loss/return of a replica's lease API (graceful stop of the shard), restart; write-through: every answered report is compared with the API at once; once per leadership term (1.5 s after it began, skipped if the replica's 30 s unknown-condition sweep fell into it) every persisted condition of the shard must be on the new leader's record, with the persisted quota in write-through mode; non-trivial = 3+ answered reports, a leader change and a hand-over check",
 		Real: []string{"pkg/ratelimiter/store/k8s objectStore (Save/Delete/DeleteUpstream/Load/Flush/Stop/createOrUpdate/periodic sync; optionally yield-instrumented), pkg/ratelimiter/store/local, client-go retry/back-off on the fake clock"},
 		Stub: []string{"control-plane API for RateLimitConditions (simapi: in-memory objects with resource versions, REST-strategy status/spec separation, two sim points per call)", "caller threads"},
 		Assume: []string{
@@ -254,11 +278,13 @@ func init() {
 		Title: "Gateway never exceeds the global limit; falls back to local limit on failure",
 		Batches: []Batch{
 			{World: "rlstub", Profile: "c09-byzantine", Quick: 250, Thor: 15000, PerProc: 1},
+			{World: "rl", Profile: "c09i-wrapper", Quick: 1500, Thor: 60000, PerProc: 1},
 		},
-		Rule:   "each run = one gateway instance's real limiter stack (clientsets with heartbeat/readiness hysteresis, UpstreamLimiter, reconcile loop, global counter manager, wrappers, meters) for one cluster with 1-2 schemas (max-in-flight or token bucket x allocate or count strategy, local <= global), 20-120 steps of request bursts with drawn hold times, clock advances (50 ms - 6 s), server readiness flaps, leader unknown, partitions, against a scripted server that answers allocate/acquire with arbitrary int32 quotas and bursts (0, negative, > configured, MaxInt32), accept/reject, error strings and failures; then faults stop, the server answers an honest quota and the bounded-liveness clause is checked; distinct = distinct trace hash; non-trivial = requests were admitted through the server-controlled limiter and also refused or admitted locally. Max-in-flight schemas are reconfigured during the run (new local/global limits; after a lowering the previous limit is tolerated until the second allocate answer has come back, i.e. until a reconcile round that began after the change has completed) and the server may turn stale (repeats its previous answer per schema)",
-		Real:   []string{"pkg/ratelimiter/clientsets (server-info sync, heartbeats, readiness hysteresis, client cache) over the simulated network", "pkg/flowcontrols UpstreamLimiter.Load/Sync/ResetLimiter", "pkg/flowcontrols/remote (reconcile loop, FlowControlCache, remote/local wrappers, global counter manager, maxInflight/tokenBucket wrappers, meters)", "client-go REST client encoding/decoding"},
-		Stub:   []string{"the limiter server (byzantine script: the property quantifies over whatever the server answers)", "request threads (GetOrDefault/TryAcquire/hold/Release as the dispatcher does)", "network (simnet round tripper with partitions), fake clock"},
-		Assume: []string{"admissions are attributed to the limiter object that made them (remote vs local wrapper) through the public AllFlowControls() accessors", "token-bucket bound per limiter object allows one fresh burst per reconcile period (a new quota swaps in a new bucket)", "the server's coin is a pre-drawn sub-stream of the tape consumed in RPC arrival order", "a clean batch is evidence, not proof"},
+		Rule:     "each run = one gateway instance's real limiter stack (clientsets with heartbeat/readiness hysteresis, UpstreamLimiter, reconcile loop, global counter manager, wrappers, meters) for one cluster with 1-2 schemas (max-in-flight or token bucket x allocate or count strategy, local <= global), 20-120 steps of request bursts with drawn hold times, clock advances (50 ms - 6 s), server readiness flaps, leader unknown, partitions, against a scripted server that answers allocate/acquire with arbitrary int32 quotas and bursts (0, negative, > configured, MaxInt32), accept/reject, error strings and failures; then faults stop, the server answers an honest quota and the bounded-liveness clause is checked; distinct = distinct trace hash; non-trivial = requests were admitted through the server-controlled limiter and also refused or admitted locally. Max-in-flight schemas are reconfigured during the run (new local/global limits; after a lowering the previous limit is tolerated until the second allocate answer has come back, i.e. until a reconcile round that began after the change has completed) and the server may turn stale (repeats its previous answer per schema)",
+		NeedInst: []string{"pkg/flowcontrols/remote/global_flowcontrol.go"},
+		Real:     []string{"pkg/ratelimiter/clientsets (server-info sync, heartbeats, readiness hysteresis, client cache) over the simulated network", "pkg/flowcontrols UpstreamLimiter.Load/Sync/ResetLimiter", "pkg/flowcontrols/remote (reconcile loop, FlowControlCache, remote/local wrappers, global counter manager, maxInflight/tokenBucket wrappers, meters)", "client-go REST client encoding/decoding"},
+		Stub:     []string{"the limiter server (byzantine script: the property quantifies over whatever the server answers)", "request threads (GetOrDefault/TryAcquire/hold/Release as the dispatcher does)", "network (simnet round tripper with partitions), fake clock"},
+		Assume:   []string{"admissions are attributed to the limiter object that made them (remote vs local wrapper) through the public AllFlowControls() accessors", "token-bucket bound per limiter object allows one fresh burst per reconcile period (a new quota swaps in a new bucket)", "the server's coin is a pre-drawn sub-stream of the tape consumed in RPC arrival order", "a clean batch is evidence, not proof"},
 	})
 	reg(&Check{
 		ID:    "C07",
@@ -278,7 +304,7 @@ func init() {
 			{World: "rl", Profile: "c13-nofault", Quick: 60, Thor: 3000, PerProc: 1, FaultFree: true},
 			{World: "rl", Profile: "c13-faults", Quick: 140, Thor: 7000, PerProc: 1},
 		},
-		Rule: "each run = N in {1,2,3,5} shards, 2-3 replicas with real lease election (3 s leases), store local or API-backed, 2-4 upstreams, two gateway client sets; shard function observed for odd byte strings on both sides; 20-90 steps of allocate/acquire RPCs sent to a drawn replica (leader or not), clock advances, and faults: a replica cut off from the API server (leases expire), crash, restart, gateway-replica partitions; leadership is taken in each replica's own view at the boundaries around every call; distinct = distinct trace hash; non-trivial = at least one RPC served and one refused",
+		Rule: "each run = N in {1,2,3,5} shards, 2-3 replicas with real lease election (3 s leases), store local or API-backed, 2-4 upstreams, two gateway client sets; shard function observed for odd byte strings on both sides; 20-90 steps of allocate/acquire RPCs sent to a drawn replica (leader or not), clock advances, and faults: a replica cut off from the API server (leases expire), crash, restart, gateway-replica partitions; leadership is taken in each replica's own view at the boundaries around every call; distinct = distinct trace hash; non-trivial = at least one RPC served and one refused. Profile c09i-wrapper (rl world, bubble + cooperative scheduler): the count-strategy max-in-flight wrapper of one schema with its three callers as sim threads interleaved at statement granularity - the global counter delivering 1-5 server answers (error, accept / refuse with limits from 0 to 2^30, stale id), the reconcile loop applying 1-3 changed limits (local config, then Sync -> Resize), 2-5 requests (TryAcquire, hold, Release; a request waiting for an answer is left to its 300 ms time-out); each admission is judged against the loosest global limit in force at some moment of its TryAcquire call, and after quiescence at most the current global limit can be taken",
 		Real: rlReal, Stub: rlStub, Assume: append([]string{"leadership in a replica's own view may overlap with another's for less than a lease under partition: the oracle does not assume a unique leader", "the range/determinism of the shard function over all names is only sampled (a pure function, see DESIGN §6)"}, rlAssume...),
 	})
 	reg(&Check{
